@@ -149,11 +149,14 @@ OkAll(doc, m, S, after) ==
                 \* a union that lists an item twice selects the location twice: applying the modifier per listing is a fair reading
                 \/ (LocDup(doc, m.path) /\ DocEq(after, MapAt(doc, LocsOnly(Locs(m.path, doc)), LAMBDA x : ApplyMod(m.md, x))))
 IsOne(m) == m.op \in {"SetOne", "DelOne", "RemoveOne", "ModifyOne"}
+\* the locations a SetOne may set: the selected ones, and the ones creation adds (read off the maximal creation mx; the
+\* path is not simply re-evaluated on mx because a filter may stop matching once the new value is in place)
+OneCands(doc, m, mx) == Sel(doc, m) \o SelectSeq(LocsOnly(Dedup(Locs(m.path, mx))), LAMBDA l : ~Exists(doc, l))
 AllowedOk(doc, m, after) ==
   IF m.op = "Set" THEN OkAll(doc, m, Sel(doc, m), after) /\ Sub(after, SetMax(doc, m.path, m.v))
   ELSE IF m.op = "SetOne" THEN
     LET mx == SetMax(doc, m.path, m.v)
-        cand == LocsOnly(Dedup(Locs(m.path, mx))) IN
+        cand == OneCands(doc, m, mx) IN
     IF cand = <<>> THEN DocEq(after, doc)
     ELSE \E q \in 1..Len(cand) : OkAll(doc, m, <<cand[q]>>, after) /\ Sub(after, Graft(doc, cand[q], mx))
   ELSE LET S == Sel(doc, m) IN
@@ -175,7 +178,7 @@ Representative(doc, m) ==
            S1 == IF S = <<>> THEN <<>> ELSE <<S[1]>> IN
        CASE m.op = "Set" -> SetMax(doc, m.path, m.v)
          [] m.op = "SetOne" -> LET mx == SetMax(doc, m.path, m.v)
-                                   cand == LocsOnly(Dedup(Locs(m.path, mx))) IN
+                                   cand == OneCands(doc, m, mx) IN
                                IF cand = <<>> THEN doc ELSE Graft(doc, cand[1], mx)
          [] m.op = "Del" -> DelNull(doc, S)
          [] m.op = "DelOne" -> DelNull(doc, S1)
